@@ -159,6 +159,10 @@ def run(ctx):
         "alphabet_exhaustive": "34 symbols (a f n i u A 0 1 8 _ \" \\ / LF CR SP TAB . : = > - < ! & | ( } # $ ; U+0001 é 😀) up to length 3 "
                                "(thorough: 4); 18-symbol string/number alphabet up to 4 (5); multi-line-string alphabets "
                                "{\\ LF SP a é \" /} up to 6 (7), {\\ LF SP 😀} up to 8 (9), {\\ LF é a SP} up to 7 (8); "
+                               "special-character alphabet {U+FEFF U+200B U+00A0 U+2028 U+0085 NUL CR LF FF SP a 1 \" / \\ # !} up to 3 (4); "
+                               "special-edge family: 27 specials (BOM, U+FFFE, NUL, ZWSP, LS, PS, NBSP, NEL, CR, CRLF, LF, FF, VT, shebang lines, "
+                               "BOM twice / after blank / before shebang, …) before, after, around, between and inside short texts, dictionary "
+                               "tokens and corpus files; "
                                "plus deeply nested inputs (12 shapes, depth 10^3..10^5) run in child processes on the default stack",
         "harness_stats": {k: v for k, v in stats.items() if not k.startswith("stream:")},
         "lexer_tie_equal": n_lex_eq, "lexer_tie_diffs": len(lex_diffs),
